@@ -16,13 +16,22 @@ import (
 // params describes a pair of chains built by twin nodes (same genesis, same validator keys):
 // the responder chain has tip height P, the requester chain tip height Q, both share the blocks
 // of heights 0..F (F <= min(P,Q)) and differ above F.
+//
+// St > 0 stalls finality on both chains: above height St only the validators with the lowest
+// indices, one fewer than the prevote / precommit threshold, produce blocks (the slots of the others
+// stay empty), so the prevoted and the finalized height stay where they were while both chains keep
+// growing. This gives the geometries with `own tip - finalized` of many rounds that the default
+// chains (finality lags the tip by less than two rounds) never reach.
 type params struct {
 	P, F, Q int
 	N       int // validators
 	Cache   int // MaxBlockCache of the responder node
+	St      int // > 0: finality stalls above that height
 }
 
-func (p params) key() string { return fmt.Sprintf("%d/%d/%d/%d/%d", p.P, p.F, p.Q, p.N, p.Cache) }
+func (p params) key() string {
+	return fmt.Sprintf("%d/%d/%d/%d/%d/%d", p.P, p.F, p.Q, p.N, p.Cache, p.St)
+}
 
 // facts are the values of a scenario the model needs in the reset line.
 type facts struct{ finQ, mhpQ, mhpP uint32 }
@@ -116,13 +125,43 @@ func finPeakOf(prm params, bad int) (uint32, error) {
 	return c.finP[bad-1], nil
 }
 
+// mhpAt is the maxHeightPrevoted of the responder's block of height h.
+func mhpAt(prm params, h int) (uint32, error) {
+	c, err := acquire(prm)
+	if err != nil {
+		release(c)
+		return 0, err
+	}
+	defer release(c)
+	if h < 0 || h >= len(c.pBlocks) {
+		return 0, fmt.Errorf("c19: height %d outside the chain", h)
+	}
+	return c.pBlocks[h].Header.MaxHeightPrevoted, nil
+}
+
 func nodeConfig(prm params, cacheSize int) node.Config {
 	return node.Config{NumValidators: prm.N, Seed: 19, GenesisTimestamp: genesisTimestamp, MaxBlockCache: cacheSize}
 }
 
+// stallMod is the block option modifier of a chain with stalled finality (params.St): above height
+// St the slots of the validators with index >= threshold-1 stay empty.
+func stallMod(n *node.Node, prm params) func(i int, o *node.BlockOpts) {
+	return func(_ int, o *node.BlockOpts) {
+		if prm.St > 0 && int(n.Height()) >= prm.St {
+			active := int(node.DefaultThreshold(uint64(prm.N))) - 1
+			for d := 1; d <= prm.N; d++ {
+				if g, err := n.GeneratorAt(d); err == nil && g.Index < active {
+					o.SlotsAhead = d
+					return
+				}
+			}
+		}
+	}
+}
+
 func (c *chains) build() {
 	prm := c.prm
-	if prm.F > prm.P || prm.F > prm.Q || prm.F < 0 || prm.N < 1 {
+	if prm.F > prm.P || prm.F > prm.Q || prm.F < 0 || prm.N < 1 || (prm.St > 0 && prm.N < 2) {
 		c.err = fmt.Errorf("c19: bad params %+v", prm)
 		return
 	}
@@ -134,7 +173,7 @@ func (c *chains) build() {
 	finP := []uint32{p.Finalized()}
 	var common []*blockchain.Block
 	for i := 0; i < prm.F; i++ {
-		bs, err := p.Extend(1)
+		bs, err := p.Extend(1, stallMod(p, prm))
 		if err != nil {
 			c.err = fmt.Errorf("extend common: %w", err)
 			return
@@ -158,7 +197,7 @@ func (c *chains) build() {
 	}
 	var pOwn []*blockchain.Block
 	for i := 0; i < prm.P-prm.F; i++ {
-		bs, err := p.Extend(1)
+		bs, err := p.Extend(1, stallMod(p, prm))
 		if err != nil {
 			c.err = fmt.Errorf("extend responder: %w", err)
 			return
@@ -172,7 +211,9 @@ func (c *chains) build() {
 	var qOwn []*blockchain.Block
 	for i := 0; i < prm.Q-prm.F; i++ {
 		first := i == 0
-		bs, err := q.Extend(1, func(_ int, o *node.BlockOpts) {
+		qStall := stallMod(q, prm)
+		bs, err := q.Extend(1, func(k int, o *node.BlockOpts) {
+			qStall(k, o)
 			if first {
 				o.BeforeEvents = []*blockchain.Event{{Module: "fork", Name: "q", Data: []byte{0x71}}}
 			}
@@ -290,7 +331,11 @@ func unhex(s string) ([]byte, error) {
 
 // resetLine renders the reset op of a scenario.
 func resetLine(prm params, f facts) string {
-	return fmt.Sprintf("reset P=%d F=%d Q=%d n=%d cache=%d finQ=%d mhpQ=%d mhpP=%d", prm.P, prm.F, prm.Q, prm.N, prm.Cache, f.finQ, f.mhpQ, f.mhpP)
+	s := fmt.Sprintf("reset P=%d F=%d Q=%d n=%d cache=%d finQ=%d mhpQ=%d mhpP=%d", prm.P, prm.F, prm.Q, prm.N, prm.Cache, f.finQ, f.mhpQ, f.mhpP)
+	if prm.St > 0 {
+		s += fmt.Sprintf(" st=%d", prm.St)
+	}
+	return s
 }
 
 func kvInt(w []string, key string) (int, bool) {
